@@ -1,7 +1,7 @@
 """C04 - wait/terminate are bounded, truthful, idempotent, even on unresponsive children."""
 import ast
 
-from ..astutil import (AnalysisError, dotted, calls_in, last_attr, receiver, norm, is_name, walk_local, is_self_attr,
+from ..astutil import (canon, conjuncts, edge_facts, guards_of, facts_at, AnalysisError, dotted, calls_in, last_attr, receiver, norm, is_name, walk_local, is_self_attr,
                        loc, short, parent_map, names_in)
 from ..cfg import is_flow, path_str
 from ..lifecycle import lifecycle, worker_classes, PUBLIC
@@ -35,11 +35,14 @@ def timeout_dependent(expr, params):
 
 
 def guard_dsts(g, tests, which):
+    """destinations of the test edges that establish one of `tests` (source text) evaluating to `which`; polarity-free:
+    `if t: A else: B` and `if not t: B else: A` give the same answer, `t and u` being true establishes t"""
+    want = {canon(ast.parse(t, mode='eval').body, which == 'true') for t in tests}
     out = set()
     for n in g.nodes:
-        if n.kind == 'test' and isinstance(n.stmt, ast.If) and n.part in (None, 'post') and norm(n.stmt.test) in tests:
+        if n.kind == 'test' and isinstance(n.stmt, ast.If) and n.part in (None, 'post'):
             for e in n.succ:
-                if e.kind == which:
+                if e.kind in ('true', 'false') and set(edge_facts(e)) & want:
                     out.add(e.dst.id)
     return out
 
@@ -286,15 +289,16 @@ def run(ctx):
             if ok:
                 k = kills[0]
                 pm = parent_map(f.node)
-                cur, conds = k, []
-                while cur in pm:
-                    cur = pm[cur]
-                    if isinstance(cur, ast.If) and in_stmts(cur, stmts):
-                        conds.append(norm(cur.test))
+                facts = set()
+                for gst, truth in guards_of(pm, k):
+                    if in_stmts(gst, stmts):
+                        facts.update(conjuncts(gst.test, truth, leaves=True))
                 lvn = vars_from(f, ('is_alive',))
-                allowed = all(c in ('force', 'self._child.is_alive()', 'self._child.is_alive() and force') or c in lvn or c in {v + ' and force' for v in lvn} or c in DEAD_GUARDS or
-                              c.startswith('not self.is_alive') for c in conds)
-                ctx.check('R4', f'{F}: the forced kill depends only on `child still alive` and `force`', allowed and any('force' in c for c in conds), F,
+                # polarity-free: what must hold for the kill to run - force, the child (still) alive, and the worker not known dead
+                good = {('force', True), ('self._child.is_alive()', True), ('self.is_alive()', True), ('self._dead', False), ('self._started', True),
+                        ('not self._started or self._dead', False), ('self._started and (not self._dead)', True)} | {(v, True) for v in lvn}
+                conds = sorted(('' if tr else 'not ') + t for t, tr in facts)
+                ctx.check('R4', f'{F}: the forced kill depends only on `child still alive` and `force`', facts <= good and ('force', True) in facts, F,
                           'force-kill-condition:' + ' & '.join(conds), f'the forced kill in {F} is conditional on {conds}', where=loc(f, k))
                 kn = [n for n in g.nodes if n.stmt is not None and n.part == 'post' and any(x is k for x in n.calls())]
                 jid = {n.id for n in g.nodes if n.stmt is not None and n.part == 'post' and any(last_attr(x) == 'join' and receiver(x) == 'self._child' for x in n.calls())}
